@@ -89,7 +89,79 @@ def crash_corpus(res):
             if st != "ok":
                 res.violation("the front end does not survive the input %s: %s" % (os.path.basename(f), st),
                               {"property": "C05", "input_file": f, "input": open(f, errors="replace").read()[:400], "status": st})
+    rows += parser_progress_corpus(res, drv)
     return rows
+
+
+PROGRESS_TEMPLATES = {
+    "match_arm": "class A { function f(x: int): int = match (x) { a -> 1, HOLE } }",
+    "match_arm_unclosed": "class A { function f(x: int): int = match (x) { a -> 1, HOLE  function g(): int = 1 }",
+    "match_scrutinee": "class A { function f(): int = match HOLE { a -> 1 } }",
+    "block_statement": "class A { function f(): int = { let a = 1; HOLE; a } }",
+    "block_only": "class A { function f(): int = { HOLE } }",
+    "call_argument": "class A { function f(): int = A.g(1, HOLE) }",
+    "call_argument_unclosed": "class A { function f(): int = A.g(1, HOLE }",
+    "class_member": "class A { HOLE function f(): int = 1 }",
+    "class_field": "class A(val a: int, HOLE) {}",
+    "variant": "class A(B, HOLE) {}",
+    "import_name": "import { A, HOLE } from M;\nclass C {}",
+    "type_parameter": "class A<T, HOLE> {}",
+    "type_argument": "class A { function f(): Option<HOLE> = 1 }",
+    "tuple_pattern": "class A { function f(): int = { let (a, HOLE) = t; 1 } }",
+    "object_pattern": "class A { function f(): int = { let { a, HOLE } = t; 1 } }",
+    "lambda_parameter": "class A { function f(): int = ((a, HOLE) -> 1)(1, 2) }",
+    "if_condition": "class A { function f(): int = if HOLE { 1 } else { 2 } }",
+    "if_let_pattern": "class A { function f(): int = if let HOLE = x { 1 } else { 2 } }",
+    "interface_member": "interface I { HOLE method f(): int }",
+    "toplevel": "HOLE class A {}",
+    "function_parameter": "class A { function f(a: int, HOLE): int = 1 }",
+    "supertype": "class A : I, HOLE {}",
+    "binary_operand": "class A { function f(): int = 1 + HOLE }",
+    "return_annotation": "class A { function f(): HOLE = 1 }",
+}
+PROGRESS_TOKENS = ["", "class", "interface", "val", "function", "method", "private", "import", "from", "let", "if", "else", "match", "true", "this", "as",
+                   "unit", "int", "bool", "(", ")", "{", "}", "[", "]", ",", ";", ":", "::", ".", "->", "=", "|", "&&", "||", "!", "+", "-", "*", "<", ">",
+                   "==", "...", "1", "\"s\"", "a", "A", "#", "@", "'", "\"", "/*", "//", "_", "a.b", "A.b(", "A<", "2147483648"]
+
+
+def parser_progress_corpus(res, drv):
+    """C05 gate (not a solver verdict): every loop of the recursive-descent parser that reads a delimited list must
+    make progress on any token.  Each template has a hole at such a position; every kind of token (keywords, operators,
+    literals, identifiers, lexer error tokens, nothing) is put there and the real parser + checker must end with a
+    result or diagnostics within the time limit."""
+    import concurrent.futures
+    import subprocess
+    import tempfile
+    d = tempfile.mkdtemp(prefix="c05prog", dir="/var/tmp")
+    jobs = []
+    for tn, tpl in PROGRESS_TEMPLATES.items():
+        for k, tok in enumerate(PROGRESS_TOKENS):
+            path = os.path.join(d, "%s_%d.sam" % (tn, k))
+            open(path, "w").write(tpl.replace("HOLE", tok) + "\n")
+            jobs.append((tn, tok, path))
+
+    def one(job):
+        tn, tok, path = job
+        try:
+            p = subprocess.run(["prlimit", "--as=2000000000", drv, "typecheck", "Main=" + path], capture_output=True, text=True, timeout=20)
+            return job, ("ok" if p.returncode == 0 and p.stdout.strip().startswith("{") else "crash (exit %d)" % p.returncode)
+        except subprocess.TimeoutExpired:
+            return job, "hang (> 20 s)"
+    bad = {}
+    n = 0
+    with concurrent.futures.ThreadPoolExecutor(max_workers=12) as ex:
+        for (tn, tok, path), st in ex.map(one, jobs):
+            n += 1
+            if st != "ok":
+                bad.setdefault((tn, st.split(" ")[0]), []).append((tok, path, st))
+    for (tn, kind), items in sorted(bad.items()):
+        tok, path, st = items[0]
+        res.violation("the front end does not survive %d input(s) of the form `%s` (e.g. HOLE = `%s`): %s"
+                      % (len(items), PROGRESS_TEMPLATES[tn], tok, st),
+                      {"property": "C05", "template": tn, "input": open(path).read(), "status": st, "tokens": [t for t, _, _ in items][:20]})
+    import shutil
+    shutil.rmtree(d, ignore_errors=True)
+    return [{"input": "parser progress corpus: %d templates x %d tokens" % (len(PROGRESS_TEMPLATES), len(PROGRESS_TOKENS)), "status": "ok" if not bad else "%d failing" % sum(len(v) for v in bad.values()), "programs": n}]
 
 
 def merged_token_location(res):
